@@ -310,6 +310,11 @@ def run(R):
         "attribute string values range over characters other than `\"` and `\\` (no escape sequences modelled)",
     ]
     extra_ok = True
+    bad = attrs.srcshape(R)
+    if bad:
+        R.violation("the macros' quote! templates no longer match the modelled attribute layout: " + "; ".join(bad)[:600],
+                    {"srcshape": bad}, no_failing_input=True)
+        extra_ok = False
     if R.tier == "thorough" or os.environ.get("PXV_C19_RUSTDOC") == "1":
         extra_ok = attrs.rustdoc_stage(R)
     pxvlib.differential(
